@@ -185,7 +185,13 @@ impl Workdir {
         let exe = obj.with_extension("exe");
         let out = Command::new("gcc").arg("-o").arg(&exe).arg(&d).arg(&io).arg(obj).output().map_err(|e| BuildErr::Infra(e.to_string()))?;
         if !out.status.success() {
-            return Err(BuildErr::Infra(format!("link: {}", String::from_utf8_lossy(&out.stderr))));
+            let msg = String::from_utf8_lossy(&out.stderr).to_string();
+            // a label the emitted file refers to but never defines is the emitted file's fault
+            if msg.contains("undefined reference") {
+                let first = msg.lines().find(|l| l.contains("undefined reference")).unwrap_or("").to_string();
+                return Err(BuildErr::Assemble(format!("Error: link: {first}")));
+            }
+            return Err(BuildErr::Infra(format!("link: {msg}")));
         }
         Ok(exe)
     }
